@@ -149,6 +149,7 @@ EXTRA = [("open_limit", (1,)), ("open_limit", (2,)), ("open_limit", (3,)), ("ope
          ("alter_sarray", ("sarray", 1 << 61)), ("add_entry", ("newf", 7, 1, 0)), ("add_bit", ("newf", "raw", (1 << 31) - 1, 1, 0)),
          ("open_limit", ((1 << 62) + 1,)), ("alter_lincom", ("lincom", 1, "raw")), ("alter_lincom", ("carray", 0, "raw")),
          ("add_const", ("newf", 0x88, 0, 0)), ("constants", (0xfa0,)), ("alter_frameoffset64", (I63 - 1, 0, 0)),
+         ("alter_spec", ("phase", 0)), ("malter_spec", ("meta", "raw", 0)), ("add_spec", ("phase", 0)),
          ("add_entry", ("newf", 19, -1, 0)), ("add_sarray", ("newf", I64 - 1, 0)),
          ("alter_bit", ("bit", "!", 63, 64)), ("alter_bit", ("bit", "!", 0, 65)), ("alter_sbit", ("sbit", "!", 70, 70))]
 
@@ -603,7 +604,7 @@ def main():
     ents = [("raw", 1, 0, [2, 1, 100], []), ("r16", 1, 0, [1, 2, 50], []), ("lincom", 2, 0, [], ["raw", "r16"]), ("bit", 4, 0, [], ["raw"]),
             ("phase", 6, 0, [], ["raw"]), ("const", 16, 0, [3], []), ("carray", 18, 0, [1, 2, 3, 4], []), ("indir", 14, 0, [], ["r16", "carray"]),
             ("string", 17, 0, [], []), ("sconst", 16, 1, [1], []), ("scarray", 18, 1, [1, 2, 3], [])]
-    nseq = 60 if not chk.thorough else 600
+    nseq = 120 if not chk.thorough else 1200
     C = []
     for k in range(nseq):
         mode = rng.choice(["RDWR", "RDWR", "RDWR", "RDONLY"])
@@ -614,30 +615,39 @@ def main():
         cmds, preds = [], []
         for j in range(14):
             w = rng.random()
-            if w < 0.3:
+            if w < 0.25:
                 nm = rng.choice(["carray", "const", "scarray", "sconst", "raw", "nosuch", "string"])
                 st, n = rng.choice([0, 1, 2, 3, 4, 5, I64 - 1]), rng.choice([0, 1, 2, 3, 5])
                 if st == I64 - 1:
                     n = 0      # stay inside the region where no crash is predicted
                 q = "call put %s %d %d 1" % (nm, st, n); cmd = "op put_carray_slice %s %d %d 0x28" % (nm, st, n)
-            elif w < 0.45:
+            elif w < 0.38:
                 nm = rng.choice(["carray", "const", "scarray", "raw", "nosuch"])
                 st, n = rng.choice([0, 1, 2, 3, 4, 5]), rng.choice([0, 1, 2, 3, 5])
                 q = "call get %s %d %d" % (nm, st, n); cmd = "op get_carray_slice %s %d %d 0x28" % (nm, st, n)
-            elif w < 0.65:
+            elif w < 0.55:
                 nm = rng.choice(["raw", "r16", "const", "nosuch"])
                 ff, fs = rng.choice([0, 1, 3, 60, I63 - 2]), rng.choice([0, 1, 5, I63 - 2, I63 - 1])
                 nf, ns = rng.choice([0, 1, 2]), rng.choice([0, 1, 5])
                 if fs >= I63 - 2 or ff >= I63 - 2:
                     ns = 5         # stay where the range guards (not lseek / _GD_DoSeek) decide
                 q = "call getdata %s %d %d %d %d 1" % (nm, ff, fs, nf, ns); cmd = "op getdata64 %s %d %d %d %d 1" % (nm, ff, fs, nf, ns)
-            elif w < 0.85:
+            elif w < 0.75:
                 nm = rng.choice(["n1", "n2", "n3", "raw", "const"])
                 fr = rng.choice([0, 0, 1, 3, -1])      # (fragment 2 carries a prefix: names are not modelled)
                 q = "call add %s %d 1" % (nm, fr); cmd = "op add_const %s 0x28 0x28 %d" % (nm, fr)
-            else:
+            elif w < 0.90:
                 nm = rng.choice(["n1", "n2", "const", "sconst", "carray", "nosuch", "scarray"])
                 q = "call del %s" % nm; cmd = "op delete %s 0" % nm
+            elif w < 0.94:
+                nm, nn = rng.choice(["n1", "const", "sconst", "nosuch", "n2"]), rng.choice(["n1", "n2", "n3", "const", "raw"])
+                q = "call rename %s %s" % (nm, nn); cmd = "op rename %s %s 0" % (nm, nn)
+            elif w < 0.97:
+                nm, fr = rng.choice(["n1", "const", "sconst", "scarray", "nosuch", "carray"]), rng.choice([0, 1, 1, 3, -1])
+                q = "call move %s %d" % (nm, fr); cmd = "op move %s %d 0" % (nm, fr)
+            else:
+                nm, ln = rng.choice(["carray", "scarray", "const", "nosuch", "raw"]), rng.choice([0, 1, 2, 4, 6, 1 << 61, I63, I64 - 1])
+                q = "call altc %s %d" % (nm, ln); cmd = "op alter_carray %s 0 %d" % (nm, ln)
             pr = M.q(q)
             if pr.startswith("C"):
                 continue
